@@ -185,7 +185,7 @@ def tt_programs(tier, raising_bias=False):
                 progs.append(p)
     # tasks started in the group by an outside callback (someone holding a reference to it)
     for combo in [(), ("ret",), ("cps",), ("wait",), ("cp_raise",), ("cps", "wait")]:
-        for tail in ("none", "cp", "wait"):
+        for tail in ("none", "cp", "wait", "raise"):
             for env in ("gate+ext_spawn", "gate+ext_spawn+cancel_outer"):
                 children = [child_behaviours(i)[n] for i, n in enumerate(combo)]
                 p = make_program(children, HOST_TAILS[tail], ENVS[env])
